@@ -636,6 +636,45 @@ func ruleSuffixBitsReported(c *Ctx) {
 		}
 	}
 	c.Check(okG && nRet > 0, rule, "GetSuffixBits", "computed from the largest suffix in use, on every path", P.pos(gs.Pos()), "")
+	// CalSuffixBits: the width must hold maxSuffix itself, i.e. ⌈log2(maxSuffix+1)⌉. Whatever way it is computed,
+	// a logarithm that is rounded to nearest, rounded down or truncated gives a width one too small for every
+	// maxSuffix just above a power of two (4 suffixes in 2 bits): the suffix then spills into the logical part.
+	if calFn := P.Func(tso, "CalSuffixBits"); calFn != nil {
+		c.saw(fnName(calFn))
+		isMath := func(v ssa.Value, names ...string) bool {
+			cl, _ := callOf(v)
+			if cl == nil {
+				return false
+			}
+			f := cl.Call.StaticCallee()
+			if f == nil || f.Pkg == nil || f.Pkg.Pkg.Path() != "math" {
+				return false
+			}
+			for _, n := range names {
+				if f.Name() == n {
+					return true
+				}
+			}
+			return false
+		}
+		okRound, at := true, ""
+		for _, b := range calFn.Blocks {
+			for _, ins := range b.Instrs {
+				switch x := ins.(type) {
+				case *ssa.Call:
+					if isMath(x, "Round", "RoundToEven", "Floor", "Trunc") && len(x.Call.Args) == 1 && derivesFrom(x.Call.Args[0], func(v ssa.Value) bool { return isMath(v, "Log2", "Log", "Log10") }, 4) {
+						okRound, at = false, P.instrPos(x)
+					}
+				case *ssa.Convert:
+					// float → int conversion truncates: applied to the logarithm itself it rounds down
+					if bt, isB := x.Type().Underlying().(*types.Basic); isB && bt.Info()&types.IsInteger != 0 && isMath(x.X, "Log2", "Log", "Log10") {
+						okRound, at = false, P.instrPos(x)
+					}
+				}
+			}
+		}
+		c.Check(okRound, rule, "rounding in "+fnName(calFn), "the logarithm of maxSuffix+1 is never rounded to nearest, rounded down or truncated (the width is its ceiling)", P.pos(calFn.Pos()), "rounded the wrong way at "+at)
+	}
 	// local allocator passes GetSuffixBits to getTS
 	lg := P.Method(tso, "LocalTSOAllocator", "GenerateTSO")
 	okL := false
